@@ -29,7 +29,7 @@ SPEC = dict(
                  "--ignore-vcs-tag is the documented opt-out: only 'tags do not influence the start' is asserted there",
                  "day-of-year 366 in a non-leap year is not generated (the statement does not say whether it matches)"],
     required=["fake_runs", "real_git_runs", "scope:default", "scope:global", "scope:branch", "ignore_runs",
-              "impossible_date_tags", "tie_cases", "uniqueness_checked", "no_matching_tag_cases", "cli_tag_scope_overrides", "show_pep440_line_checked", "fetch_failure_cases", "legacy_pattern_runs"],
+              "impossible_date_tags", "tie_cases", "uniqueness_checked", "no_matching_tag_cases", "cli_tag_scope_overrides", "show_pep440_line_checked", "fetch_failure_cases", "legacy_pattern_runs", "line_separator_in_tag_name", "non_utf8_tag_names", "real_git_column_ui_always"],
     anchors=[("cli", "_parse_version_tags"), ("cli", "get_latest_vcs_version_tag"), ("cli", "_update_cfg_from_vcs"),
              ("vcs", "get_tags"), ("v2version", "is_valid"), ("v1version", "is_valid")],
 )
@@ -86,6 +86,14 @@ def gen_tags(R, p, ast, names, tdy, base_state):
         elif r < 0.85:
             out.append((R.choice(["junk", "release-1", "latest", "v", "nightly-2021", "1.2.3.4.5", "x" * 40, "1..2",
                                   "ünï", "tag/with/slash", "v1.2.3-final-final"]), "junk"))
+        elif r < 0.9:
+            # ONE tag whose name contains a Unicode line separator followed by text that would be a (high) version:
+            # it does not match the pattern and must not be read as two tags
+            _d, st = gen.gen_state(R, names)
+            st.update(major=777, year_y=2097, year_g=2097)
+            rs = gen.reachable(ast, st, tdy)
+            if rs and not projects._week53(names, rs[1]):
+                out.append((R.choice(["nightly", "x", "rel"]) + R.choice(["\u2028", "\u2029", "\u0085"]) + rs[0], "line-separator-in-name"))
         elif has_md:
             st = dict(base_state)
             st.update(year_y=R.choice([2021, 2023, 2030]), month=R.choice([2, 2, 4, 6, 9, 11]))
@@ -263,9 +271,16 @@ def run_fake(ctx, case):
     d = harness.new_project(make_project(p, cur, scope if (scope != "default" or R.random() < 0.5) else None))
     fake = harness.FakeVCS(d, "git")
     try:
-        fake.set_out("tag-list", "".join(t + "\n" for t in tags_all))
-        fake.set_out("tag-merged", "".join(t + "\n" for t in tags_merged))
+        raw_extra = b""
+        if R.random() < 0.1:
+            raw_extra = b"caf\xe9-nightly\n"      # a tag name that is not valid UTF-8 (git does not care)
+            kinds.add("non-utf8-name")
+            ctx.count("non_utf8_tag_names")
+        fake.set_out("tag-list", "".join(t + "\n" for t in tags_all).encode("utf-8") + raw_extra)
+        fake.set_out("tag-merged", "".join(t + "\n" for t in tags_merged).encode("utf-8") + raw_extra)
         ctx.count("fake_runs")
+        if "line-separator-in-name" in kinds:
+            ctx.count("line_separator_in_tag_name")
         fetch_fails = R.random() < 0.12
         if fetch_fails:
             fake.set_out("branch", "* main 0123abc [origin/main] msg\n")
@@ -303,6 +318,10 @@ def run_real(ctx, case):
     d = harness.new_project(make_project(p, cur, scope))
     try:
         git(d, "init", "-q", "-b", "main")
+        if R.random() < 0.3:
+            # a user setting that makes `git tag --list` print several tags per line
+            git(d, "config", "column.ui", "always")
+            ctx.count("real_git_column_ui_always")
         git(d, "add", "-A")
         git(d, "commit", "-q", "-m", "c1")
         commits = {"c1": ["main", "dev"]}
